@@ -1,2 +1,17 @@
-"""Class schemas: fields of the singleton objects the verified functions work on, with their kinds."""
-CLASSES = {}
+"""Class schemas: fields of the singleton objects the verified functions work on, with their kinds.
+A field kind None means "not present at function entry" (created by the code)."""
+REFS2 = ('list', ('list', 'ref'))
+MODEL = {
+    'num_students': 'int', 'num_projects': 'int', 'num_lecturers': 'int',
+    'proj_lower_quotas': ('list', 'int'), 'proj_upper_quotas': ('list', 'int'),
+    'lec_lower_quotas': ('list', 'int'), 'lec_targets': ('list', 'int'), 'lec_upper_quotas': ('list', 'int'),
+    'proj_lecturers': ('list', 'int'),
+    'pairs': REFS2, 'project_lists': REFS2, 'lecturer_lists': REFS2, 'rank_lists': REFS2,
+    'info_string': ('str', 'info'), 'pulp_status': ('str', 'status'),
+    'OPTIMAL_PULP_STATUS': ('const_str', 'Optimal'), 'NOTSOLVED_PULP_STATUS': ('const_str', 'Not Solved'),
+}
+CLASSES = {
+    'Model': MODEL,
+    'Brute_force_solver': {'model': ('obj', 'Model'),
+                           'instance_options': ('dict', 'Instance_options', {'NUMAGENTS': 'int', 'TWOPL': 'bool', 'PC': 'bool'})},
+}
